@@ -6,6 +6,7 @@ import ReuseVerif.Lemmas.Merge
 import ReuseVerif.Lemmas.C20NoNotice
 import ReuseVerif.Lemmas.C20MergeLines
 import ReuseVerif.Lemmas.C20GetYear
+import ReuseVerif.Lemmas.C20MergeSorted
 
 namespace C20
 open Py Model Spec
@@ -429,6 +430,44 @@ theorem C20_merge_lines (endRe : Re) (ns : List Notice) (hok : ∀ n ∈ ns, n.o
     rw [hr, hr'] at hs
     simp only [Option.map_some, Option.some.injEq] at hs
     rw [hs]
+
+/-- **`merge_copyright_lines` as it runs** (`mergeLines`: the loop over `sorted(copyright_lines)`, so that the
+    result is a function of the set — fixes/c10-merge-order.diff, `C10.C10_merge_order`).  `C20_merge_lines` holds
+    for the loop on every order of the notices, in particular the sorted one; and what a merged line of a holder is
+    (`MergedLine`: most common prefix, year span) depends on the notices only as a multiset.  So the four
+    conclusions hold for `mergeLines` in terms of the notices as given. -/
+theorem C20_merge_lines_sorted (endRe : Re) (ns : List Notice) (hok : ∀ n ∈ ns, n.ok endRe) :
+    (mergeLinesWith endRe (sortTexts (ns.map Notice.line))).Nodup ∧
+    (∀ o ∈ mergeLinesWith endRe (sortTexts (ns.map Notice.line)), ∃ n ∈ ns, MergedLine endRe ns n.holder o) ∧
+    (∀ n ∈ ns, ∃ o ∈ mergeLinesWith endRe (sortTexts (ns.map Notice.line)), MergedLine endRe ns n.holder o) ∧
+    (∀ o ∈ mergeLinesWith endRe (sortTexts (ns.map Notice.line)),
+      ∀ o' ∈ mergeLinesWith endRe (sortTexts (ns.map Notice.line)),
+      (searchLineWith endRe o).map (·.statement) = (searchLineWith endRe o').map (·.statement) → o = o') := by
+  have hp := C20L.sortNotices_perm ns
+  rw [← C20L.sortNotices_map]
+  obtain ⟨h1, h2, h3, h4⟩ := C20_merge_lines endRe (C20L.sortNotices ns) (fun n hn => hok n (hp.mem_iff.mp hn))
+  refine ⟨h1, ?_, ?_, h4⟩
+  · intro o ho
+    obtain ⟨n, hn, hm⟩ := h2 o ho
+    exact ⟨n, hp.mem_iff.mp hn, C20L.mergedLine_perm hp hm⟩
+  · intro n hn
+    obtain ⟨o, ho, hm⟩ := h3 n (hp.mem_iff.mpr hn)
+    exact ⟨o, ho, C20L.mergedLine_perm hp hm⟩
+
+/-- … with the generated END pattern this is `mergeLines` -/
+theorem C20_merge_lines_code (ns : List Notice) (hok : ∀ n ∈ ns, n.ok Generated.endRe) :
+    (mergeLines (ns.map Notice.line)).Nodup ∧
+    (∀ o ∈ mergeLines (ns.map Notice.line), ∃ n ∈ ns, MergedLine Generated.endRe ns n.holder o) ∧
+    (∀ n ∈ ns, ∃ o ∈ mergeLines (ns.map Notice.line), MergedLine Generated.endRe ns n.holder o) :=
+  let h := C20_merge_lines_sorted Generated.endRe ns hok
+  ⟨h.1, h.2.1, h.2.2.1⟩
+
+/-- no holder is lost by `mergeLines` either: the loop sees every line of the set -/
+theorem C20_merge_no_holder_lost_sorted (endRe : Re) (lines : List Text) (l : Text) (m : CMatch)
+    (hl : l ∈ lines) (hm : searchLineWith endRe l = some m) :
+    lineFor (parseLines endRe (sortTexts lines)) m.statement ∈ mergeLinesWith endRe (sortTexts lines) ∧
+      m.statement <:+ lineFor (parseLines endRe (sortTexts lines)) m.statement :=
+  C20_merge_no_holder_lost endRe (sortTexts lines) l m ((C10Order.sortTexts_perm lines).mem_iff.mpr hl) hm
 
 /-- the hypotheses of `C20_merge_lines` are satisfiable with several lines of one holder, different
     prefixes and year forms (here with an END pattern that only knows `}`; the tie stream
